@@ -237,7 +237,7 @@ class _WLog(list):
             self.snaps.append(self.observe())
 
 
-def make_watcher(kind, is_async=False):
+def make_watcher(kind, is_async=False, sync_callbacks=False):
     """kind: 'plain' | 'ex' | 'upd'"""
     log = _WLog()
 
@@ -261,7 +261,10 @@ def make_watcher(kind, is_async=False):
                 log.append(f"update_for_remove_policy/{ptype}/{enc_rule(params[0]) if len(params) == 1 and isinstance(params[0], list) else 'ARGS' + repr(params)}")
 
             def update_for_remove_filtered_policy(self, sec, ptype, field_index, *field_values):
-                log.append(f"update_for_remove_filtered_policy/{ptype}/{field_index}/{enc_list([enc_str(v) for v in field_values])}")
+                if all(isinstance(v, str) for v in field_values):
+                    log.append(f"update_for_remove_filtered_policy/{ptype}/{field_index}/{enc_list([enc_str(v) for v in field_values])}")
+                else:  # not the operation's own arguments: record them as they came
+                    log.append(f"update_for_remove_filtered_policy/{ptype}/{field_index}/ARGS{field_values!r}")
 
             def update_for_save_policy(self, model):
                 log.append("update_for_save_policy")
@@ -281,7 +284,7 @@ def make_watcher(kind, is_async=False):
             def update_for_update_policies(self, old_rules, new_rules):
                 log.append(f"update_for_update_policies/{enc_rules(old_rules)}/{enc_rules(new_rules)}")
 
-    if is_async:
+    if is_async and not sync_callbacks:
         base = W
 
         class AW(base):
@@ -312,6 +315,7 @@ def make_watcher(kind, is_async=False):
 class Config:
     def __init__(self, shape, adapter=True, watcher=None, initial=None, is_async=False, text=None, matchfn=None, late=False):
         self.shape, self.adapter, self.watcher, self.is_async = shape, adapter, watcher, is_async
+        self.sync_callbacks = False  # async enforcer with a watcher whose operation-specific callbacks are plain functions
         self.noq = False  # True: no decision / role queries after the calls (histories whose link state is outside the modelled domain)
         self.late = late  # the enforcer is built without an adapter, its flags are set, then set_adapter + load_policy
         self.text = text or shape  # key into TEXT (a textual variant of the same model shape)
@@ -328,7 +332,7 @@ class Config:
         )
 
     def key(self):
-        return (self.shape, self.text, self.matchfn, self.adapter, self.watcher, self.is_async, repr(self.initial), self.late)
+        return (self.shape, self.text, self.matchfn, self.adapter, self.watcher, self.is_async, repr(self.initial), self.late, self.sync_callbacks)
 
 
 def build_enforcer(cfg, fail_after=None):
@@ -374,7 +378,7 @@ def build_enforcer(cfg, fail_after=None):
             ad.log.clear()
     w = None
     if cfg.watcher:
-        w = make_watcher(cfg.watcher, cfg.is_async)
+        w = make_watcher(cfg.watcher, cfg.is_async, getattr(cfg, "sync_callbacks", False))
         e.set_watcher(w)
 
         def observe():
@@ -778,7 +782,7 @@ def compare_history(res, cfg, hist, impl, answers, idx, queries, judge):
         res.evaluations += 1
         res.count("op:" + op[0])
         res.count("ret:" + (rec["ret"] if rec["ret"] in ("T", "F", "-") or rec["ret"].startswith("!") else "list"))
-        case = {"config": {"shape": cfg.shape, "text": cfg.text, "matchfn": cfg.matchfn, "adapter": cfg.adapter, "watcher": cfg.watcher, "async": cfg.is_async, "late": cfg.late, "initial": cfg.initial}, "history": [list(o) for o in hist[: i + 1]], "step": i}
+        case = {"config": {"shape": cfg.shape, "text": cfg.text, "matchfn": cfg.matchfn, "adapter": cfg.adapter, "watcher": cfg.watcher, "async": cfg.is_async, "late": cfg.late, "sync_callbacks": cfg.sync_callbacks, "initial": cfg.initial}, "history": [list(o) for o in hist[: i + 1]], "step": i}
         model = {"ret": mret, "acalls": acalls, "wcalls": wcalls, "events": events, "obs": obs, "answers": [m for m, _ in qa], "fresh": [s for _, s in qa]}
         # ---- the tie: implementation vs model
         diffs = []
